@@ -53,6 +53,9 @@ def op_alphabet():
             for ci in (0, 1):
                 ops.append(['add', cat, place, ci])
     ops.append(['unk', 'm'])
+    ops.append(['unk', 'e'])
+    ops.append(['unk', 's'])
+    ops.append(['extend', None, 3, 'unk'])
     ops.append(['freeze'])
     ops.append(['filter', {}])
     ops.append(['filter', {'keep_categories': ['A', 'C']}])
@@ -246,16 +249,19 @@ def run_history(ops, rec, targets):
                     return 'step %d: add_context_category(%r) raised ValueError (categories %r)' % (step, cat, before)
                 affected = None     # duplicate category name: documented refusal
         elif kind == 'unk':
-            sp = mk('m', '', tag)
+            which = op[1]
+            sp = mk(which, '', tag)
+            setter = {'m': db.set_unknown_macro_spec, 'e': db.set_unknown_environment_spec,
+                      's': db.set_unknown_specials_spec}[which]
             was_frozen = db.frozen
             try:
-                db.set_unknown_macro_spec(sp)
+                setter(sp)
                 if was_frozen:
-                    return 'step %d: a frozen database accepted set_unknown_macro_spec' % step
-                h.unknown = dict(h.unknown, m=sp)
+                    return 'step %d: a frozen database accepted %s' % (step, setter.__name__)
+                h.unknown = dict(h.unknown, **{which: sp})
             except RuntimeError:
                 if not was_frozen:
-                    return 'step %d: set_unknown_macro_spec raised on an unfrozen database' % step
+                    return 'step %d: %s raised on an unfrozen database' % (step, setter.__name__)
                 rec.monitor('frozen_refusals')
                 affected = None
         elif kind == 'freeze':
@@ -284,7 +290,8 @@ def run_history(ops, rec, targets):
             affected = None
             derived = True
         elif kind == 'extend':
-            _, cat, ci = op
+            cat, ci = op[1], op[2]
+            with_unk = len(op) > 3
             ms, es, ss = CONTENTS[ci]
             if not db.frozen:
                 try:
@@ -298,10 +305,15 @@ def run_history(ops, rec, targets):
                 affected = None
             else:
                 before = list(db.categories())
+                xkw = {}
+                newunk = dict(h.unknown)
+                if with_unk:
+                    newunk = {'m': mk('m', '', tag), 'e': mk('e', '', tag), 's': h.unknown['s']}
+                    xkw = {'unknown_macro_spec': newunk['m'], 'unknown_environment_spec': newunk['e']}
                 try:
                     ndb = db.extended_with(cat, macros=[mk('m', n, tag) for n in ms],
                                            environments=[mk('e', n, tag) for n in es],
-                                           specials=[mk('s', n, tag) for n in ss])
+                                           specials=[mk('s', n, tag) for n in ss], **xkw)
                 except ValueError:
                     if cat is None or cat not in before:
                         return 'step %d: extended_with(%r) raised ValueError (categories %r)' % (step, cat, before)
@@ -321,7 +333,7 @@ def run_history(ops, rec, targets):
                         order = list(h.order)       # merged into the leading auto-named category
                     if not ndb.frozen:
                         return 'step %d: database returned by extended_with is not frozen' % step
-                    hs.append(H(ndb, order, dict(h.unknown), parent=h))
+                    hs.append(H(ndb, order, newunk, parent=h))
                     derived = True
                 affected = None
         # every database must be self-consistent; all but the one operated on must be unchanged
@@ -411,7 +423,7 @@ def run_shard(desc, rec):
                     place = rng.choice([None, ['prepend'], ['before', rng.choice('ABCZ')], ['after', rng.choice('ABCZ')]])
                     ops.append(['add', rng.choice(cats), place, rng.randrange(len(CONTENTS))])
                 elif r < 0.58:
-                    ops.append(['unk', 'm'])
+                    ops.append(['unk', rng.choice('mes')])
                 elif r < 0.72:
                     ops.append(['freeze'])
                 elif r < 0.86:
@@ -424,7 +436,10 @@ def run_shard(desc, rec):
                         kw['keep_which'] = rng.sample(['macros', 'environments', 'specials'], rng.randint(1, 2))
                     ops.append(['filter', kw])
                 else:
-                    ops.append(['extend', rng.choice(['X', 'Y', None, None]), rng.randrange(len(CONTENTS))])
+                    e = ['extend', rng.choice(['X', 'Y', None, None]), rng.randrange(len(CONTENTS))]
+                    if rng.random() < 0.25:
+                        e.append('unk')
+                    ops.append(e)
             targets = [rng.randrange(100) for _ in range(L)]
             rec.case()
             case = {'ops': ops, 'targets': targets}
